@@ -95,10 +95,11 @@ Members == { [kind |-> t[1], nc |-> t[2]] : t \in MemberTypes }
 MT_C09 == ({"doc"} \X (BenignNC \cup HostileNC))
           \cup ({"nostream"} \X {"plain", "absolute", "dotdot"})
           \cup ({"emptyFile"} \X {"plain", "absolute"})
-          \cup ((SkipKinds \ {"dir"}) \X {"plain"}) \cup {<<"dir", "nested">>}
+          \cup ((SkipKinds \ {"dir"}) \X {"plain"}) \cup {<<"dir", "nested">>, <<"hidden", "nested">>}
 MT_C09s == ({"doc"} \X {"plain", "nested", "absolute", "dotdot", "empty", "long"})      \* representatives
           \cup ({"nostream"} \X {"plain", "absolute"})
           \cup ({"hidden", "fork", "nested", "unsup", "oversize", "symlink", "fifo"} \X {"plain"})
+          \cup {<<"hidden", "nested">>}
 MT_C10 == {"doc", "emptyFile", "corrupt", "dir", "hidden", "fork", "nested", "unsup"} \X {"plain"}
 Histories == {[t |-> "Exhaust", k |-> 0]}
              \cup { [t |-> x, k |-> n] : x \in {"CloseAfter", "Abandon", "Throw"}, n \in 0..MaxK }
@@ -205,7 +206,8 @@ Spec == Init /\ [][Next]_vars
 (* ------------------------------------------------------------------ properties *)
 Inv_Confined  == \A e \in fs : e[2] # "Outside"
 Inv_Cleanup   == gen \in Finished => tmp \in {"none", "removed"}
-Inv_SkipRules == \A n \in 1..Len(results) : Contribution(ms[results[n].m]) # "mustnot"
+Inv_SkipRules == \A n \in 1..Len(results) : results[n].m # 0 => Contribution(ms[results[n].m]) # "mustnot"
+                 \* (m = 0 only in recorded traces: a result that carries no member's path - C10's subject)
 Inv_Closed    == /\ \A n \in 1..Len(results) : results[n].src = "archive"
                  /\ <<"read", "Outside">> \notin fs
 
